@@ -96,6 +96,44 @@ func (s *byteSim) run(bv byte) (simResult, bool) {
 		}
 		return 0, false
 	}
+	// integers are tracked symbolically as "value of a header phi at loop entry + constant";
+	// phis of inner blocks (e.g. the post block of a three-clause for) are resolved by the
+	// edge this iteration actually took
+	cameFrom := map[*ssa.BasicBlock]*ssa.BasicBlock{}
+	type symInt struct {
+		base *ssa.Phi
+		k    int64
+		ok   bool
+	}
+	var evalInt func(v ssa.Value, depth int) symInt
+	evalInt = func(v ssa.Value, depth int) symInt {
+		if depth > 16 {
+			return symInt{}
+		}
+		switch x := v.(type) {
+		case *ssa.Phi:
+			if x.Block() == s.hdr {
+				return symInt{base: x, ok: true}
+			}
+			from := cameFrom[x.Block()]
+			for i, p := range x.Block().Preds {
+				if p == from {
+					return evalInt(x.Edges[i], depth+1)
+				}
+			}
+		case *ssa.BinOp:
+			if x.Op == token.ADD || x.Op == token.SUB {
+				l := evalInt(x.X, depth+1)
+				if k, ok := constInt(x.Y); ok && l.ok {
+					if x.Op == token.SUB {
+						k = -k
+					}
+					return symInt{base: l.base, k: l.k + k, ok: true}
+				}
+			}
+		}
+		return symInt{}
+	}
 	for {
 		steps++
 		if steps > 64 {
@@ -103,7 +141,7 @@ func (s *byteSim) run(bv byte) (simResult, bool) {
 			return res, false
 		}
 		if blk == s.hdr {
-			// record which phi edges carry increments
+			// record which header phis were advanced by a constant in this iteration
 			for _, in := range blk.Instrs {
 				phi, ok := in.(*ssa.Phi)
 				if !ok {
@@ -113,15 +151,14 @@ func (s *byteSim) run(bv byte) (simResult, bool) {
 					if p != prev {
 						continue
 					}
-					if bo, ok := phi.Edges[i].(*ssa.BinOp); ok && bo.Op == token.ADD && bo.X == ssa.Value(phi) {
-						if k, ok := constInt(bo.Y); ok {
-							res.incr[phi] = k
-						}
+					if v := evalInt(phi.Edges[i], 0); v.ok && v.base == phi && v.k != 0 {
+						res.incr[phi] = v.k
 					}
 				}
 			}
 			return res, true
 		}
+		cameFrom[blk] = prev
 		for _, in := range blk.Instrs {
 			call, ok := in.(*ssa.Call)
 			if !ok {
